@@ -39,6 +39,10 @@ const (
 	tPage     = 2000 // header hashes per stored page
 )
 
+// tLedgerQuestions: height -> (blocks back, transaction index) of a ledger_q transaction in the shared source chain.
+var tLedgerQuestions = map[int][2]int{2003: {3, 0}, 2004: {1, 0}, 2005: {1, 1}, 2050: {40, 0}, 2051: {1990, 2}, 2500: {2400, 0}, 4005: {1, 0}, 4006: {4001, 1}, 4100: {2095, 0}, 4400: {396, 0},
+	4002: {3997, 1}, 4003: {3000, 0}, 4013: {4008, 1}, 4014: {2500, 2}, 4022: {4017, 1}, 4102: {4097, 1}, 4302: {4297, 1}, 4492: {4487, 1}}
+
 var tChain = ck.ChainCfg{Profile: "V1C1", SRIH: true, StateExchange: true, StateSyncInterval: tInterval, MTB: tMTB}
 
 // tSource is the shared source chain: encoded headers and their hashes by height.
@@ -84,9 +88,19 @@ func trustedSource() (*tSource, error) {
 			return
 		}
 		for i := 1; i <= tSrcLen; i++ {
-			raw, blk, err := b.BuildBlock(ck.BlockSpec{TimeD: 1000, Nonce: uint64(i)})
+			spec := ck.BlockSpec{TimeD: 1000, Nonce: uint64(i)}
+			// A few blocks beyond the first page of 2000 header hashes (blocks are collected page by page) ask the
+			// Ledger contract about blocks far below: traceable and untraceable ones, good and bad transaction indices.
+			if q, ok := tLedgerQuestions[i]; ok {
+				spec.Txs = []ck.Action{{Kind: "ledger_q", From: ck.PValidators, A: q[0], B: q[1], N: 0, Nonce: uint32(i)}}
+			}
+			raw, blk, err := b.BuildBlock(spec)
 			if err != nil {
 				tSrcErr = fmt.Errorf("source block %d: %v", i, err)
+				return
+			}
+			if len(blk.Transactions) != len(spec.Txs) {
+				tSrcErr = fmt.Errorf("source block %d: the ledger question was not accepted: %v", i, b.Rejected)
 				return
 			}
 			s.blocks[i] = raw
